@@ -65,19 +65,19 @@ type Run struct {
 	start time.Time
 	mu    sync.Mutex
 
-	evaluations  int64
-	digests      map[uint64]struct{}
-	samples      []any
-	counters     map[string]int64
-	maxima       map[string]float64
-	violations   []violation
-	known        map[string]knownEntry
-	knownHits    map[string]int64
-	inconclusive int64
-	onlyCase     int
-	curCase      int
-	verbose      bool
-	extra        map[string]any
+	evaluations    int64
+	digests        map[uint64]struct{}
+	samples        []any
+	counters       map[string]int64
+	maxima         map[string]float64
+	violations     []violation
+	known          map[string]knownEntry
+	knownHits      map[string]int64
+	inconclusive   int64
+	onlyCase       int
+	curCase        int
+	verbose        bool
+	extra          map[string]any
 	replaysWritten int
 }
 
